@@ -54,7 +54,7 @@ WATCHDOG_S = {"quick": 900, "thorough": 7200}
 
 MANIFEST = {
     "technique": "model-based testing of call histories: generated stateful target contracts and filter configurations, brute force of all call sequences up to the depth on a reference EVM as ground truth, replay of every reported call sequence, and metamorphic runs with state merging disabled / function order permuted",
-    "text": "Generated target contracts (guards on argument, storage, sender, value, timestamp; confluent effects; optional assertion inside a target) with generated targetSenders/excludeSenders/targetContracts/excludeContracts/targetSelectors/excludeSelectors answers and invariant_depth 0..3 are run through run_contract; all admissible call sequences up to the depth are brute-forced on a reference EVM over boundary-value domains: whenever some sequence breaks an invariant halmos must report FAIL for it, every counterexample sequence halmos prints must be admissible, succeed call by call and break the invariant on the reference EVM, in-target assertion failures must be reported with a replayable sequence, and verdicts must not change when state de-duplication is switched off or the functions are listed in another order.",
+    "text": "Generated target contracts (guards on argument, storage, sender, value, timestamp; confluent effects; optional assertion inside a target) with generated targetSenders/excludeSenders/targetContracts/excludeContracts/targetSelectors/excludeSelectors answers and invariant_depth 0..3 are run through run_contract; all admissible call sequences up to the depth are brute-forced on a reference EVM over boundary-value domains: whenever some sequence breaks an invariant halmos must report FAIL for it, every counterexample sequence halmos prints must be admissible, succeed call by call and break the invariant on the reference EVM, the (contract, function) pairs executed by the frontier computation and the senders admitted by its sender condition must be exactly those of the filter model, in-target assertion failures must be reported with a replayable sequence, and verdicts must not change when state de-duplication is switched off or the functions are listed in another order.",
     "note": "trusts the reference EVM, the filter model transcribed from Foundry's documented precedence, and yices for unsat answers; the brute force is bounded to small value domains",
 }
 
